@@ -5,6 +5,8 @@ import Holpy.C03.OrdProofs
 import Holpy.C03.HashProofs
 import Holpy.C03.HeapProofs
 import Holpy.C03.SubstProofs
+import Holpy.C03.MemoProofs
+import Holpy.C03.CacheProofs
 /-
 C03 — term equality is alpha-equivalence; substitution is capture-free.
 
@@ -51,8 +53,10 @@ example : hashTree (.comb (.comb (.const "conj" (Ty.fn Ty.bool (Ty.fn Ty.bool Ty
       (.var "B" Ty.bool)) :=
   hash_congr _ _ (by decide)
 
-/-- Types are equal exactly when `Type.__hash__` hashes equal tuple nests (the model's type
-equality is structural equality, as `Type.__eq__`). -/
+/-- Equal types are hashed through equal tuple nests (hence have equal Python hashes) — the
+direction `→`, which is what the property asks.  The converse `←` is injectivity of the MODEL's
+nest (different types give different nests); it says nothing about Python's `hash`, which may
+collide, and nothing in the check relies on it. -/
 theorem ty_hash_congr (a b : Ty) : a = b ↔ tyHash a = tyHash b :=
   ⟨fun h => h ▸ rfl, tyHash_inj a b⟩
 
@@ -145,6 +149,114 @@ theorem id_shortcut_counterexample :
     readTerm_repr 2 1 _ (by decide), readTerm_repr 2 0 _ (by decide), by decide⟩
 
 example : (staleHeap 1).map (·.id) = some 0 := by decide
+
+
+
+/-! ### the `_id`-keyed cache of `subst_bound` -/
+
+/-- `subst_bound` as written — results cached under `(s._id, binder depth)`, a node re-used when its
+children came back with the same `_id` — run in any heap satisfying `IdInv`, with any allocator
+answers and starting from any cache whose entries are right (`CacheOK`, e.g. the empty one), for a
+closed argument: the object returned represents exactly `substBoundAt` (the pure recursion of the
+kernel model, about which `substBound_wt/sem` speak) of the term the body represents; the invariant
+and the cache stay right, nothing existing is touched. -/
+theorem substBound_cache_sound (ua : Addr) (tu : Term) (hcl : Term.isOpenAt 0 tu = false)
+    (fuel : Nat) (h : Heap) (c : Cache) (as : List Addr) (s : Addr) (n : Nat) (ts : Term)
+    (res : Heap × Cache × List Addr × Addr)
+    (hi : IdInv h) (ru : Repr h ua tu) (hc : CacheOK tu h c) (rs : Repr h s ts)
+    (e : sbHeap true ua fuel h c as s n = some res) :
+    IdInv res.1 ∧ (∀ x o, h x = some o → res.1 x = some o) ∧ CacheOK tu res.1 res.2.1 ∧
+    Repr res.1 res.2.2.2 (Term.substBoundAt tu n ts) :=
+  sbHeap_sound ua tu hcl fuel h c as s n ts res hi ru hc rs e
+
+/-- `S = F (Bound 0)` at 2 (ONE object), the body `S (%y. S)` at 4, the closed argument `u` at 5 -/
+def cacheHeap : Heap :=
+  (((((Heap.empty.set 0 ⟨.var "F" (Ty.fn Ty.bool Ty.bool), 0⟩).set 1 ⟨.bound 0, 1⟩).set 2 ⟨.comb 0 1, 2⟩).set 3
+    ⟨.abs "y" Ty.bool 2, 3⟩).set 4 ⟨.comb 2 3, 4⟩).set 5 ⟨.var "u" Ty.bool, 5⟩
+
+def cacheBody : Term :=
+  .comb (.comb (.var "F" (Ty.fn Ty.bool Ty.bool)) (.bound 0))
+    (.abs "y" Ty.bool (.comb (.var "F" (Ty.fn Ty.bool Ty.bool)) (.bound 0)))
+
+example : (sbHeap true 5 10 cacheHeap [] [10, 11, 12] 4 0).bind (fun r => readTerm r.1 10 r.2.2.2)
+    = some (Term.substBoundAt (.var "u" Ty.bool) 0 cacheBody) ∧
+    readTerm cacheHeap 10 4 = some cacheBody := by decide
+
+/-- With the cache keyed by `_id` alone the same object `S`, met again under the binder `%y` where
+its `Bound 0` is `y`, gets the result computed at depth 0: `(F u) (%y. F u)` instead of
+`(F u) (%y. F y)` — the bound variable of the inner binder is replaced by the argument. -/
+theorem substBound_cache_counterexample :
+    (sbHeap false 5 10 cacheHeap [] [10, 11, 12] 4 0).bind (fun r => readTerm r.1 10 r.2.2.2)
+      = some (.comb (.comb (.var "F" (Ty.fn Ty.bool Ty.bool)) (.var "u" Ty.bool))
+          (.abs "y" Ty.bool (.comb (.var "F" (Ty.fn Ty.bool Ty.bool)) (.var "u" Ty.bool)))) ∧
+    Term.substBoundAt (.var "u" Ty.bool) 0 cacheBody
+      = .comb (.comb (.var "F" (Ty.fn Ty.bool Ty.bool)) (.var "u" Ty.bool))
+          (.abs "y" Ty.bool (.comb (.var "F" (Ty.fn Ty.bool Ty.bool)) (.bound 0))) := by decide
+
+/-! ### the memoised hash `_hash_val` -/
+
+/-- For every history of constructor calls, `Term(t)` (which copies `_hash_val`), `copy`, frees of
+unreferenced objects, `hash` calls (which store `_hash_val` unless present) and `subst_type_inplace`
+calls (which rewrite the objects reachable from the target once each and delete `_hash_val` on
+every one of them) — the last under the hypothesis `NoAlias`: no memoised object outside the
+rewritten ones shares an object with them — a stored `_hash_val` is always the hash of the tuple
+nest of the term the object represents NOW; so `hash(obj)` is the hash of that nest whether memoised
+or not, and objects representing `==` terms have equal hashes.  Also: the objects of the target of
+`subst_type_inplace` represent the instantiated terms afterwards. -/
+theorem hash_memo_sound (h : Heap) (m : Memo) (hst : MSteps (Heap.empty, Memo.empty) (h, m)) :
+    MemoInv h m ∧
+    (∀ a t fuel, Repr h a t → size t ≤ fuel → hashObs h m fuel a = some (hashTree t)) ∧
+    (∀ a b ta tb fuel, Repr h a ta → Repr h b tb → size ta ≤ fuel → size tb ≤ fuel →
+      Term.aeq ta tb = true → hashObs h m fuel a = hashObs h m fuel b) ∧
+    (∀ σ R b t, ChildClosed h R → Repr h b t → b ∈ R →
+      Repr (inplaceHeap σ R h) b (Term.substType σ t)) := by
+  have hi : MemoInv h m := MSteps_inv (s := (Heap.empty, Memo.empty)) MemoInv.empty hst
+  refine ⟨hi, fun a t fuel r hs => hashObs_eq hi r hs, ?_, fun σ R b t hc r hb => inplace_repr σ hc r hb⟩
+  intro a b ta tb fuel ra rb hsa hsb hab
+  rw [hashObs_eq hi ra hsa, hashObs_eq hi rb hsb, hashTree_congr ta tb hab]
+
+example : MSteps (Heap.empty, Memo.empty) (inplaceHeap [("a", Ty.bool)] [1, 0] sharedHeap,
+    inplaceMemo true [1, 0] sharedHeap sharedMemo) :=
+  .cons (s2 := (Heap.empty.set 0 ⟨.svar "x" (.stvar "a"), 0⟩, Memo.empty))
+    (.alloc (a := 0) (n := .svar "x" (.stvar "a")) rfl) <|
+  .cons (s2 := (sharedHeap, Memo.empty)) (.alloc (a := 1) (n := .comb 0 0) rfl) <|
+  .cons (s2 := (sharedHeap, sharedMemo))
+    (.hash (a := 1) (t := .comb (.svar "x" (.stvar "a")) (.svar "x" (.stvar "a")))
+      (readTerm_repr 3 1 _ (by decide))) <|
+  .cons (.inplace (σ := [("a", Ty.bool)]) (R := [1, 0]) (childClosed_sound (by decide))
+    sharedMemo_noalias) (.nil _)
+
+/-- The known finding (`NoAlias` violated): `subst_type_inplace` on the object `x` alone, while the
+live term `x x` that contains it has its hash memoised, leaves `x x` with the hash of its OLD
+structure — it is `==` to a freshly built `x x` at the new type, with a different hash. -/
+theorem hash_memo_alias_counterexample :
+    MemoInv sharedHeap sharedMemo ∧ ChildClosed sharedHeap [0] ∧ ¬ NoAlias sharedHeap sharedMemo [0] ∧
+    ¬ MemoInv (inplaceHeap [("a", Ty.bool)] [0] sharedHeap) (inplaceMemo true [0] sharedHeap sharedMemo) := by
+  refine ⟨sharedMemo_inv, childClosed_sound (by decide), ?_, ?_⟩
+  · intro hn
+    exact hn 1 (by decide) (by simp [sharedMemo, Memo.set]) 0
+      (.step (a := 1) (c := 0) (o := ⟨.comb 0 0, 1⟩) rfl (by simp [Node.children]) (.refl 0)) (by simp)
+  · intro hi
+    obtain ⟨t, r, e⟩ := hi 1 _ rfl
+    have ht := r.functional (readTerm_repr 3 1 (.comb (.svar "x" Ty.bool) (.svar "x" Ty.bool)) (by
+      simp [readTerm, inplaceHeap, sharedHeap, Heap.set, substNode, Ty.subst, List.lookup, Ty.bool]))
+    subst ht
+    simp [hashTree, tyHash, tyHashList, Ty.bool] at e
+
+/-- Why the memo must be dropped on EVERY visited object: if it is dropped only where a type
+annotation is rewritten (atoms and abstractions), the application node `x x` keeps the hash of its
+old structure although it is the target itself (`NoAlias` holds). -/
+theorem hash_memo_partial_drop_counterexample :
+    MemoInv sharedHeap sharedMemo ∧ ChildClosed sharedHeap [1, 0] ∧ NoAlias sharedHeap sharedMemo [1, 0] ∧
+    ¬ MemoInv (inplaceHeap [("a", Ty.bool)] [1, 0] sharedHeap) (inplaceMemo false [1, 0] sharedHeap sharedMemo) := by
+  refine ⟨sharedMemo_inv, childClosed_sound (by decide), ?_, ?_⟩
+  · exact sharedMemo_noalias
+  · intro hi
+    obtain ⟨t, r, e⟩ := hi 1 _ rfl
+    have ht := r.functional (readTerm_repr 3 1 (.comb (.svar "x" Ty.bool) (.svar "x" Ty.bool)) (by
+      simp [readTerm, inplaceHeap, sharedHeap, Heap.set, substNode, Ty.subst, List.lookup, Ty.bool]))
+    subst ht
+    simp [hashTree, tyHash, tyHashList, Ty.bool] at e
 
 /-! ### type instantiation -/
 
@@ -250,14 +362,18 @@ example : Term.substBound (.abs "x" Ty.bool (.abs "y" Ty.bool (.comb (.comb (.va
 
 /-! ### abstraction over a variable -/
 
-/-- `Lambda(x, t)` (= `Abs(x.name, x.T, t.abstract_over(x))`) of a closed well-typed `t :: S` over a
-variable or schematic variable `x :: T` is well-typed of type `T ⇒ S`. -/
+/-- `Lambda(x, t)` (= `Abs(x.name, x.T, t.abstract_over(x))`) of a CLOSED well-typed `t :: S` (no
+loose bound variables: `checkedGetType [] t`) over a variable or schematic variable `x :: T` is
+well-typed of type `T ⇒ S`.  Only closed `t` is covered: `abstract_over` does not shift loose bound
+variables of `t`, so on an open `t` the new binder would capture `Bound 0` — the code's callers
+(`Lambda`, `Forall`, `abstraction`, `forall_intr`) apply it to closed terms. -/
 theorem abstractOver_wt (x : Term) (k : Nat) (n : String) (T : Ty) (hx : varKey x = some (k, n, T))
     (t l : Term) (S : Ty) (ht : Term.checkedGetType [] t = .ok S) (h : Term.mkLambda x t = .ok l) :
     Term.checkedGetType [] l = .ok (Ty.fn T S) :=
   checked_mkLambda x k n T hx t l S ht h
 
-/-- … and is the function `v ↦ ⟦t⟧` with `x` valued `v`, in every standard model and valuation:
+/-- … and (again for CLOSED `t` only) is the function `v ↦ ⟦t⟧` with `x` valued `v`, in every
+standard model and valuation:
 the occurrences of `x` (and nothing else) are bound; bound names clashing with `x` are irrelevant. -/
 theorem abstractOver_sem (M : Model) (ρ : Valuation) (hρ : Admissible M ρ) (x : Term) (k : Nat)
     (n : String) (T : Ty) (hx : varKey x = some (k, n, T)) (t l : Term) (S : Ty)
